@@ -456,7 +456,7 @@ class StateTranslator:
                 a, ty, ctx = self._E(l, ctx, None)
                 neg = isinstance(op, ast.IsNot)
                 if ty == "val":
-                    return f"(Rbacx.PyR.{'isNotNone' if neg else 'isNone'} {a})", "bool", ctx
+                    return f"(Rbacx.PyR.{'isNotNone' if neg else 'isNoneV'} {a})", "bool", ctx
                 if ty in ("num?", "exc?"):
                     return f"({a}).{'isSome' if neg else 'isNone'}", "bool", ctx
                 raise Unsupported(f"`is None` on a value of reading `{ty}`: {ast.unparse(e)}")
